@@ -279,6 +279,42 @@ def history_worker(part, depth):
             uc.set_vectors(M @ Q.T if rotated else M.copy())
         return p, (how == "vectors" and rotated)
 
+    # after an error: a re-specification the object refuses (two lengths instead of three, a 3x2 matrix, a string) - on the SAME object or
+    # on a bystander, with the SAME angles as the valid call that follows or with others - raises, and the next valid re-specification
+    # describes exactly the cell it names
+    def refuse(uc, which, p):
+        try:
+            if which == "short-lengths":
+                uc.set_lengths_and_angles(list(p[:2]), list(np.radians(p[3:])))
+            elif which == "short-angles":
+                uc.set_lengths_and_angles(list(p[:3]), list(np.radians(p[3:5])))
+            elif which == "bad-matrix":
+                uc.set_vectors(np.zeros((3, 2)))
+            elif which == "classmethod-short-lengths":
+                UnitCell.from_lengths_and_angles(list(p[:2]), list(p[3:]), unit="degrees")
+            else:
+                uc.set_lengths_and_angles("abc", list(np.radians(p[3:])))
+            part.count("refused_call_answered")
+        except Exception:
+            pass
+
+    for which in ("short-lengths", "short-angles", "bad-matrix", "classmethod-short-lengths", "string-lengths"):
+        for i_bad in range(len(cells)):
+            for k in range(len(alphabet)):
+                for target in ("same-object", "bystander"):
+                    part.ev()
+                    part.tr(2)
+                    uc = UnitCell.from_lengths_and_angles(list(cells[(i_bad + 1) % 3][:3]), list(cells[(i_bad + 1) % 3][3:]), unit="degrees")
+                    by = UnitCell(np.eye(3) * 3.0)
+                    refuse(uc if target == "same-object" else by, which, cells[i_bad])
+                    case = {"kind": "history", "hist": []}
+                    try:
+                        params, free = apply(uc, alphabet[k])
+                        check_cell(part, uc, tuple(float(x) for x in params), "history:%s-after-refused-%s" % (alphabet[k][0], which), case, frame_free=True)
+                        fresh = UnitCell.from_lengths_and_angles(list(cells[i_bad][:3]), list(cells[i_bad][3:]), unit="degrees")
+                        check_cell(part, fresh, tuple(float(x) for x in cells[i_bad]), "history:new-object-after-refused-%s" % which, case, frame_free=True)
+                    except Exception as e:
+                        part.fail("history:raise-after-refused", "a valid cell specification raised %r after a refused one (%s)" % (e, which), case)
     seen = set()
     for L in range(1, depth + 1):
         for hist in itertools.product(range(len(alphabet)), repeat=L):
